@@ -37,7 +37,7 @@ def run(c):
                 r2, _ = c.run_worker("conv", [(sc, d[sc])], parallel=1)
                 if (r2.get(sc) or [{}])[0].get("agree", True):
                     raise vf.FrameworkError("disagreement not reproduced")
-            c.report(key, first, {"case": case, "event": ev})
+            c.report(key, first, dict({"case": case, "event": ev}, **c.rp("conv", d[sc])))
     for sc, dd in deaths.items():
         c.report("death:%s" % dd["kind"], "process died in a conversion", {"case": json.loads(d[sc]), "death": dd})
     if stats["n"] != len(items) and not c.violations:
